@@ -381,3 +381,248 @@ pub proof fn lemma_br_bezout_is_gcd(g: int, a: int, b: int, s: int, t: int)
         lemma_br_div_comb(d, s, a, t * b);
     }
 }
+
+// ---- extended Euclid: the two Bezout rows, the determinant identities and the size of the cofactors -------------------------
+
+/// C12 for the primitive extended gcd of x >= y >= 1 (the form `unchecked_gcd_ext` delivers): g is a positive common divisor and
+/// the integer combination s*x + t*y (hence THE gcd: lemma_br_bezout_is_gcd); the cofactors are small: |s| <= y, |t| <= x, and at
+/// most half of that when x > y
+pub open spec fn br_ext_post(x: int, y: int, g: int, s: int, t: int) -> bool {
+    &&& g >= 1
+    &&& x % g == 0
+    &&& y % g == 0
+    &&& s * x + t * y == g
+    &&& -y <= s <= y
+    &&& -x <= t <= x
+    &&& (x > y ==> -y <= 2 * s <= y && -x <= 2 * t <= x)
+}
+
+/// state of the Euclidean scheme in the orientation "last_s >= 0": rows (ls, lt | lr), (s, t | r) of x >= y >= 1
+///   t*lr - lt*r == x,  ls*r - s*lr == y   (|t|*lr + |lt|*r == x,  |s|*lr + |ls|*r == y)
+pub open spec fn br_ext_det(x: int, y: int, lr: int, r: int, ls: int, s: int, lt: int, t: int) -> bool {
+    &&& ls >= 0 && s <= 0 && lt <= 0 && t >= 0
+    &&& t * lr - lt * r == x
+    &&& ls * r - s * lr == y
+}
+
+/// loop invariant of the Euclidean scheme (both orientations; `even` is a ghost flag)
+pub open spec fn br_ext_inv(x: int, y: int, lr: int, r: int, ls: int, s: int, lt: int, t: int, even: bool) -> bool {
+    &&& 1 <= r <= lr <= x
+    &&& 1 <= y <= x
+    &&& (x > y ==> lr > r)
+    &&& ls * x + lt * y == lr
+    &&& s * x + t * y == r
+    &&& (even ==> br_ext_det(x, y, lr, r, ls, s, lt, t))
+    &&& (!even ==> br_ext_det(x, y, lr, r, -ls, -s, -lt, -t))
+}
+
+pub proof fn lemma_br_ext_init(x: int, y: int)
+    requires 1 <= y <= x,
+    ensures br_ext_inv(x, y, x, y, 1, 0, 0, 1, true),
+{
+    assert(1 * x - 0 * y == x && 1 * y - 0 * x == y && 1 * x + 0 * y == x && 0 * x + 1 * y == y) by (nonlinear_arith);
+}
+
+/// quotient and remainder of one step (machine division): q*r <= lr, nr < r
+pub proof fn lemma_br_ext_quo(lr: int, r: int)
+    requires 1 <= r <= lr,
+    ensures (lr / r) * r <= lr, 1 <= lr / r <= lr, lr - (lr / r) * r == lr % r, 0 <= lr % r < r,
+        lr % r != 0 ==> r >= 2 && 2 * (lr / r) <= lr,
+{
+    let q = lr / r;
+    vstd::arithmetic::div_mod::lemma_fundamental_div_mod(lr, r);
+    vstd::arithmetic::div_mod::lemma_mod_bound(lr, r);
+    assert(r * q == q * r) by (nonlinear_arith);
+    assert(q >= 1) by (nonlinear_arith) requires q * r + lr % r == lr, lr % r < r, r <= lr, r >= 1;
+    assert(q <= lr) by (nonlinear_arith) requires q * r <= lr, r >= 1, q >= 1;
+    if lr % r != 0 {
+        assert(2 * q <= lr) by (nonlinear_arith) requires q * r <= lr, r >= 2, q >= 1;
+    }
+}
+
+/// one step in the orientation "ls >= 0": signs, determinant identities and the bounds that keep the machine arithmetic exact
+pub proof fn lemma_br_ext_det_step(x: int, y: int, lr: int, r: int, ls: int, s: int, lt: int, t: int, q: int, nr: int, ns: int, nt: int)
+    requires br_ext_det(x, y, lr, r, ls, s, lt, t), 1 <= r <= lr, q >= 1, nr == lr - q * r, 0 <= nr,
+        ns == ls - q * s, nt == lt - q * t,
+    ensures br_ext_det(x, y, r, nr, -s, -ns, -t, -nt),
+        0 <= -(q * s) <= ns, ns * r <= y, 0 <= q * t <= -nt, (-nt) * r <= x,
+{
+    assert(q * s <= 0) by (nonlinear_arith) requires q >= 1, s <= 0;
+    assert(q * t >= 0) by (nonlinear_arith) requires q >= 1, t >= 0;
+    // (-nt)*r - (-t)*nr == x   and   (-s)*nr - (-ns)*r == y
+    assert((-t) * nr <= 0) by (nonlinear_arith) requires t >= 0, nr >= 0;
+    assert((-s) * nr >= 0) by (nonlinear_arith) requires s <= 0, nr >= 0;
+    assert((-nt) * r - (-t) * nr == x) by (nonlinear_arith)
+        requires nt == lt - q * t, nr == lr - q * r, t * lr - lt * r == x;
+    assert((-s) * nr - (-ns) * r == y) by (nonlinear_arith)
+        requires ns == ls - q * s, nr == lr - q * r, ls * r - s * lr == y;
+    assert(ns * r <= y) by (nonlinear_arith) requires (-s) * nr - (-ns) * r == y, (-s) * nr >= 0;
+    assert((-nt) * r <= x) by (nonlinear_arith) requires (-nt) * r - (-t) * nr == x, (-t) * nr <= 0;
+}
+
+/// one step of the invariant
+pub proof fn lemma_br_ext_step(x: int, y: int, lr: int, r: int, ls: int, s: int, lt: int, t: int, even: bool, q: int, nr: int, ns: int, nt: int)
+    requires br_ext_inv(x, y, lr, r, ls, s, lt, t, even), q == lr / r, nr == lr - q * r, nr != 0,
+        ns == ls - q * s, nt == lt - q * t,
+    ensures br_ext_inv(x, y, r, nr, s, ns, t, nt, !even),
+        r >= 2, 1 <= q, 2 * q <= lr,
+        -y <= 2 * (q * s) <= y, -y <= 2 * ns <= y, -x <= 2 * (q * t) <= x, -x <= 2 * nt <= x,
+{
+    lemma_br_ext_quo(lr, r);
+    assert(ns * x + nt * y == nr) by (nonlinear_arith)
+        requires ls * x + lt * y == lr, s * x + t * y == r, nr == lr - q * r, ns == ls - q * s, nt == lt - q * t;
+    if even {
+        lemma_br_ext_det_step(x, y, lr, r, ls, s, lt, t, q, nr, ns, nt);
+        assert(2 * ns <= y) by (nonlinear_arith) requires ns * r <= y, r >= 2, ns >= 0;
+        assert(2 * (-nt) <= x) by (nonlinear_arith) requires (-nt) * r <= x, r >= 2, -nt >= 0;
+    } else {
+        assert(q * (-s) == -(q * s) && q * (-t) == -(q * t)) by (nonlinear_arith);
+        lemma_br_ext_det_step(x, y, lr, r, -ls, -s, -lt, -t, q, nr, -ns, -nt);
+        assert(2 * (-ns) <= y) by (nonlinear_arith) requires (-ns) * r <= y, r >= 2, -ns >= 0;
+        assert(2 * nt <= x) by (nonlinear_arith) requires nt * r <= x, r >= 2, nt >= 0;
+    }
+}
+
+/// the end of the scheme (r | lr) in the orientation "ls >= 0"
+pub proof fn lemma_br_ext_det_fin(x: int, y: int, lr: int, r: int, ls: int, s: int, lt: int, t: int, q: int)
+    requires br_ext_det(x, y, lr, r, ls, s, lt, t), 1 <= r <= lr, lr == q * r,
+    ensures x % r == 0, y % r == 0, t <= x, -s <= y, lr > r ==> 2 * t <= x && -2 * s <= y,
+{
+    assert(x == (t * q - lt) * r) by (nonlinear_arith) requires t * lr - lt * r == x, lr == q * r;
+    assert(y == (ls - s * q) * r) by (nonlinear_arith) requires ls * r - s * lr == y, lr == q * r;
+    lemma_br_div_intro(r, t * q - lt, x);
+    lemma_br_div_intro(r, ls - s * q, y);
+    assert(lt * r <= 0) by (nonlinear_arith) requires lt <= 0, r >= 1;
+    assert(ls * r >= 0) by (nonlinear_arith) requires ls >= 0, r >= 1;
+    assert((-s) * lr == -(s * lr)) by (nonlinear_arith);
+    assert(t <= x) by (nonlinear_arith) requires t * lr <= x, lr >= 1, t >= 0;
+    assert(-s <= y) by (nonlinear_arith) requires (-s) * lr <= y, lr >= 1, -s >= 0;
+    if lr > r {
+        assert(q >= 2) by (nonlinear_arith) requires lr == q * r, lr > r, r >= 1;
+        assert(lr >= 2) by (nonlinear_arith) requires lr == q * r, q >= 2, r >= 1;
+        assert(2 * t <= x) by (nonlinear_arith) requires t * lr <= x, lr >= 2, t >= 0;
+        assert(-2 * s <= y) by (nonlinear_arith) requires (-s) * lr <= y, lr >= 2, -s >= 0;
+    }
+}
+
+/// early return `(r, s, t)` when the remainder vanishes
+pub proof fn lemma_br_ext_fin(x: int, y: int, lr: int, r: int, ls: int, s: int, lt: int, t: int, even: bool, q: int)
+    requires br_ext_inv(x, y, lr, r, ls, s, lt, t, even), q == lr / r, lr - q * r == 0,
+    ensures br_ext_post(x, y, r, s, t),
+{
+    if even {
+        lemma_br_ext_det_fin(x, y, lr, r, ls, s, lt, t, q);
+    } else {
+        lemma_br_ext_det_fin(x, y, lr, r, -ls, -s, -lt, -t, q);
+    }
+}
+
+/// "forward to single width": the rows (s, t | r), (ns, nt | nr) combined with the cofactors (cx, cy) of the pair (r, nr), r > nr >= 1
+pub proof fn lemma_br_ext_compose(x: int, y: int, lr: int, r: int, ls: int, s: int, lt: int, t: int, even: bool,
+                                  g: int, cx: int, cy: int)
+    requires br_ext_inv(x, y, lr, r, ls, s, lt, t, even), lr > r, br_ext_post(lr, r, g, cx, cy),
+    ensures br_ext_post(x, y, g, cx * ls + cy * s, cx * lt + cy * t),
+        -y <= 2 * (cx * ls) <= y, -y <= 2 * (cy * s) <= y, -x <= 2 * (cx * lt) <= x, -x <= 2 * (cy * t) <= x,
+        -y <= 2 * (cx * ls + cy * s) <= y, -x <= 2 * (cx * lt + cy * t) <= x,
+{
+    let bs = cx * ls + cy * s; let bt = cx * lt + cy * t;
+    assert(bs * x + bt * y == g) by (nonlinear_arith)
+        requires ls * x + lt * y == lr, s * x + t * y == r, cx * lr + cy * r == g, bs == cx * ls + cy * s, bt == cx * lt + cy * t;
+    // g | lr, g | r  ==>  g | x, g | y  (determinant identities)
+    let (als, as_, alt, at) = if even { (ls, s, lt, t) } else { (-ls, -s, -lt, -t) };
+    assert(br_ext_det(x, y, lr, r, als, as_, alt, at));
+    lemma_br_div_mul(g, at, lr);
+    lemma_br_div_comb(g, -alt, r, at * lr);
+    assert((-alt) * r + at * lr == x) by (nonlinear_arith) requires at * lr - alt * r == x;
+    lemma_br_div_mul(g, als, r);
+    lemma_br_div_comb(g, -as_, lr, als * r);
+    assert((-as_) * lr + als * r == y) by (nonlinear_arith) requires als * r - as_ * lr == y;
+    // sizes: 2|cx| <= r, 2|cy| <= lr,  |as|*lr + |als|*r == y,  |at|*lr + |alt|*r == x
+    let acx = br_abs(cx); let acy = br_abs(cy);
+    assert(2 * acx <= r && 2 * acy <= lr);
+    let p1 = acx * als; let p2 = acy * (-as_); let p3 = acx * (-alt); let p4 = acy * at;
+    assert(0 <= 2 * p1 && 2 * p1 <= r * als) by (nonlinear_arith) requires 0 <= 2 * acx <= r, als >= 0, p1 == acx * als;
+    assert(0 <= 2 * p2 && 2 * p2 <= lr * (-as_)) by (nonlinear_arith) requires 0 <= 2 * acy <= lr, -as_ >= 0, p2 == acy * (-as_);
+    assert(0 <= 2 * p3 && 2 * p3 <= r * (-alt)) by (nonlinear_arith) requires 0 <= 2 * acx <= r, -alt >= 0, p3 == acx * (-alt);
+    assert(0 <= 2 * p4 && 2 * p4 <= lr * at) by (nonlinear_arith) requires 0 <= 2 * acy <= lr, at >= 0, p4 == acy * at;
+    assert(r * als + lr * (-as_) == y) by (nonlinear_arith) requires als * r - as_ * lr == y;
+    assert(r * (-alt) + lr * at == x) by (nonlinear_arith) requires at * lr - alt * r == x;
+    assert(2 * p1 + 2 * p2 <= y && 2 * p3 + 2 * p4 <= x);
+    // |cx * ls| == p1 etc.
+    assert(br_abs(cx * ls) == p1) by (nonlinear_arith)
+        requires p1 == acx * als, acx == br_abs(cx), als == ls || als == -ls, als >= 0;
+    assert(br_abs(cy * s) == p2) by (nonlinear_arith)
+        requires p2 == acy * (-as_), acy == br_abs(cy), as_ == s || as_ == -s, -as_ >= 0;
+    assert(br_abs(cx * lt) == p3) by (nonlinear_arith)
+        requires p3 == acx * (-alt), acx == br_abs(cx), alt == lt || alt == -lt, -alt >= 0;
+    assert(br_abs(cy * t) == p4) by (nonlinear_arith)
+        requires p4 == acy * at, acy == br_abs(cy), at == t || at == -t, at >= 0;
+}
+
+// ---- the public wrappers: common factor 2^s split off ---------------------------------------------------------------------------
+
+/// gcd_ext: cofactors of (A, Bv) = (a0 / p, b0 / p) are cofactors of (a0, b0) for g * p
+pub proof fn lemma_br_ext_lift(a0: int, b0: int, aa: int, bb: int, p: int, g: int, ca: int, cb: int)
+    requires p >= 1, a0 == aa * p, b0 == bb * p, aa >= 1, bb >= 1, g >= 1, aa % g == 0, bb % g == 0, ca * aa + cb * bb == g,
+    ensures g * p >= 1, a0 % (g * p) == 0, b0 % (g * p) == 0, ca * a0 + cb * b0 == g * p, g * p <= a0, g * p <= b0,
+        aa <= a0, bb <= b0, (a0 > b0) == (aa > bb), (a0 >= b0) == (aa >= bb),
+        br_is_gcd(g * p, a0, b0),
+{
+    assert(g * p >= 1) by (nonlinear_arith) requires g >= 1, p >= 1;
+    lemma_br_div_elim(g, aa);
+    lemma_br_div_elim(g, bb);
+    let ka = aa / g; let kb = bb / g;
+    assert(a0 == ka * (g * p)) by (nonlinear_arith) requires a0 == aa * p, aa == ka * g;
+    assert(b0 == kb * (g * p)) by (nonlinear_arith) requires b0 == bb * p, bb == kb * g;
+    lemma_br_div_intro(g * p, ka, a0);
+    lemma_br_div_intro(g * p, kb, b0);
+    assert(ca * a0 + cb * b0 == g * p) by (nonlinear_arith) requires a0 == aa * p, b0 == bb * p, ca * aa + cb * bb == g;
+    assert(aa <= a0) by (nonlinear_arith) requires a0 == aa * p, p >= 1, aa >= 1;
+    assert(bb <= b0) by (nonlinear_arith) requires b0 == bb * p, p >= 1, bb >= 1;
+    assert(a0 >= 1 && b0 >= 1);
+    lemma_br_div_le(g * p, a0);
+    lemma_br_div_le(g * p, b0);
+    assert((a0 > b0) == (aa > bb)) by (nonlinear_arith) requires a0 == aa * p, b0 == bb * p, p >= 1;
+    assert((a0 >= b0) == (aa >= bb)) by (nonlinear_arith) requires a0 == aa * p, b0 == bb * p, p >= 1;
+    lemma_br_bezout_is_gcd(g * p, a0, b0, ca, cb);
+}
+
+/// gcd(x, 0) == gcd(0, x) == x
+pub proof fn lemma_br_is_gcd_zero(x: int)
+    requires x >= 1,
+    ensures br_is_gcd(x, x, 0), br_is_gcd(x, 0, x),
+{
+    lemma_br_div_self(x);
+    assert forall|d: int| d >= 1 && #[trigger] (x % d) == 0 && 0int % d == 0 implies x % d == 0 by {}
+    assert forall|d: int| d >= 1 && #[trigger] (0int % d) == 0 && x % d == 0 implies x % d == 0 by {}
+}
+
+/// gcd: the odd parts ao, bo of a0 = ao * 2^i, b0 = bo * 2^j and the common shift s = min(i, j); gg = gcd(ao, bo)
+pub proof fn lemma_br_gcd_lift(a0: int, b0: int, ao: int, bo: int, i: nat, j: nat, s: nat, gg: int)
+    requires ao >= 1, bo >= 1, ao % 2 == 1, bo % 2 == 1, a0 == ao * pow2(i), b0 == bo * pow2(j),
+        s == (if i <= j { i } else { j }), gg == br_gcd(ao as nat, bo as nat),
+    ensures a0 >= 1, b0 >= 1, gg >= 1, gg * pow2(s) <= a0, gg * pow2(s) <= b0, br_is_gcd(gg * pow2(s), a0, b0), gg <= a0, gg <= b0,
+{
+    vstd::arithmetic::power2::lemma_pow2_pos(s);
+    assert(gg <= gg * pow2(s)) by (nonlinear_arith) requires pow2(s) >= 1, gg >= 0;
+    lemma_br_gcd_split_pow2(a0, b0, ao, bo, i, j, s);
+    lemma_br_gcd_pos(a0, b0);
+    lemma_br_gcd_pos(ao, bo);
+    lemma_br_gcd_props(a0 as nat, b0 as nat);
+}
+
+/// the division shortcut of `gcd`: r == b mod a != 0 with its power of two split off replaces b
+pub proof fn lemma_br_gcd_rem_odd(a: int, b: int, r: int, ro: int, k: nat)
+    requires a >= 1, b >= 1, a % 2 == 1, r == b % a, r != 0, ro >= 1, r == ro * pow2(k),
+    ensures br_gcd(a as nat, ro as nat) == br_gcd(a as nat, b as nat),
+        br_gcd(ro as nat, a as nat) == br_gcd(b as nat, a as nat),
+{
+    vstd::arithmetic::div_mod::lemma_fundamental_div_mod(b, a);
+    vstd::arithmetic::div_mod::lemma_mod_bound(b, a);
+    let q = b / a;
+    assert(a * q == q * a) by (nonlinear_arith);
+    lemma_br_gcd_step(b, a, q, r);              // gcd(r, a) == gcd(b, a)
+    lemma_br_gcd_strip_pow2(ro, k, a);          // gcd(ro * 2^k, a) == gcd(ro, a)
+    lemma_br_gcd_sym(ro, a);
+    lemma_br_gcd_sym(b, a);
+}
